@@ -62,6 +62,8 @@ var impls = map[string]func(string) string{
 	"sftp.store":      implSftpStore,
 	"sftp.get":        implSftpGet,
 	"sftp.has":        implSftpHas,
+	"mfs.index":       implMfsIndex,
+	"mfs.sparse":      implMfsSparse,
 }
 
 type replayFile struct {
